@@ -163,7 +163,21 @@ def _case(draw):
     # a small number of taint sources per case, so that clean dynamic nodes still execute next to the tainted ones
     for _ in range(draw(st.sampled_from([0, 1, 1, 1, 2, 2, 3]))):
         s_ = stages[draw(st.integers(0, n - 1))]
-        what = draw(st.sampled_from(['source', 'source', 'root', 'grp', 'node', 'node', 'node', 'arg', 'arg', 'chain-end', 'chain-end', 'alias-src']))
+        what = draw(st.sampled_from(['source', 'source', 'root', 'grp', 'node', 'node', 'node', 'arg', 'arg', 'chain-end', 'chain-end', 'alias-src', 'alias-retarget', 'fstr']))
+        if what == 'alias-retarget':
+            # a stage after the one that re-uses grp.g1 through an alias gives grp.g1 another target - from an unsafe source
+            firsts = [i for i, st_ in enumerate(stages) if st_.get('alias') and st_['writes'].get('g1', ['x'])[0] in ('call', 'bind')]
+            laters = [st_ for i, st_ in enumerate(stages) if firsts and i > firsts[0] and st_['writes'].get('g1', ['x'])[0] in ('call', 'bind', 'name')]
+            if laters:
+                laters[draw(st.integers(0, len(laters) - 1))]['safe'] = False
+            continue
+        if what == 'fstr':
+            # !unsafe written in front of an (implicit) f-string
+            cands = [(st_, k) for st_ in stages for k, w_ in st_['writes'].items() if w_[0] == 'fstr']
+            if cands:
+                st2, k2 = cands[draw(st.integers(0, len(cands) - 1))]
+                st2['tags'][k2] = True
+            continue
         if what == 'alias-src':
             # the container of a dynamic node that is re-used through a yaml alias elsewhere in the document
             cands = [st_ for st_ in stages if st_.get('alias') and st_['writes'].get('g1', ['x'])[0] in ('call', 'bind')]
